@@ -897,11 +897,22 @@ fn angle_axis_float<T: Fl>(sub: &mut Sub, cfg: &Config, idx: u64) {
         }
     };
     let (sh, ch) = (a / 2.0).sin_cos();
-    let q = Quaternion { x: T::of(n[0] * sh), y: T::of(n[1] * sh), z: T::of(n[2] * sh), w: T::of(if kind == 1 { -1.0 } else { ch }) };
+    // kind 1: exactly -identity; kind 2: w = +-1 exactly with a vector part far below the rounding
+    // of w (what cos(angle/2) rounds to for an angle within ~sqrt(eps) of 0 or of a full turn)
+    let q = match kind {
+        1 => Quaternion { x: T::of(0.0), y: T::of(0.0), z: T::of(0.0), w: T::of(-1.0) },
+        2 => {
+            let tiny = T::EPS * 10f64.powf(rng.f64_in(-3.0, -0.5));
+            Quaternion { x: T::of(n[0] * tiny), y: T::of(n[1] * tiny), z: T::of(n[2] * tiny), w: T::of(if rng.bool() { 1.0 } else { -1.0 }) }
+        }
+        _ => Quaternion { x: T::of(n[0] * sh), y: T::of(n[1] * sh), z: T::of(n[2] * sh), w: T::of(ch) },
+    };
     let qr = [q.x.to64(), q.y.to64(), q.z.to64(), q.w.to64()];
     let desc = format!("q = {:?} (x,y,z,w) ~ angle {} about {:?}", qr, a, n);
     let w = qr[3];
-    let exact_identity = w.abs() == 1.0 && qr[0] == 0.0 && qr[1] == 0.0 && qr[2] == 0.0;
+    // |w| exactly 1 (vector part zero or lost in the rounding of w): the rotation is the identity,
+    // any finite unit axis is a correct answer
+    let exact_identity = w.abs() == 1.0 && qr[0].abs() <= T::EPS && qr[1].abs() <= T::EPS && qr[2].abs() <= T::EPS;
     let omw2 = 1.0 - w * w;
     // conditioning of acos and of the division by sqrt(1-w^2): errors eps/(1-w^2) on the axis
     let tol_axis = 64.0 * T::EPS / omw2.max(1e-300);
